@@ -418,7 +418,6 @@ def organize(
     for tn in task_names:
         for t in dawgie.pl.schedule.ae.at:
             for n in t.locate(tn):
-                jobs[n.tag] = n
                 n.set('runid', runid)
                 n.set(
                     'status',
@@ -437,6 +436,9 @@ def organize(
                     n.get('todo').update(dawgie.db.targets())
                 else:
                     n.get('todo').update(targets)
+                # only jobs with pending or executing work belong in the queue
+                if n.get('todo') or n.get('doing'):
+                    jobs[n.tag] = n
                 pass
             pass
         pass
